@@ -43,7 +43,32 @@ def full_name(h):
     return '%s::%s::%s' % (h['modpath'], modname, h['name'])
 
 
-def run_harnesses(harnesses, jobs=8, timeout=3000, playback=False):
+def _cbmc_children(scratch):
+    out = []
+    for pid in os.listdir('/proc'):
+        if not pid.isdigit():
+            continue
+        try:
+            cl = open('/proc/%s/cmdline' % pid, 'rb').read().decode(errors='replace')
+        except OSError:
+            continue
+        if cl.startswith('cbmc') and scratch in cl:
+            out.append(int(pid))
+    return out
+
+
+def _proc_stats(pid):
+    try:
+        st = open('/proc/%d/stat' % pid).read().split()
+        rss = int(st[23]) * os.sysconf('SC_PAGE_SIZE')
+        start = int(st[21]) / os.sysconf('SC_CLK_TCK')
+        up = float(open('/proc/uptime').read().split()[0])
+        return rss, up - start
+    except (OSError, IndexError, ValueError):
+        return 0, 0
+
+
+def run_harnesses(harnesses, jobs=8, timeout=3000, playback=False, mem_limit_gb=10, per_harness_s=900):
     d, repo = make_scratch(harnesses)
     try:
         cmd = ['cargo', 'kani', '-p', 'parity-scale-codec', '--features', FEATURES, '--exact', '--output-format', 'terse']
@@ -55,13 +80,29 @@ def run_harnesses(harnesses, jobs=8, timeout=3000, playback=False):
             cmd += ['--harness', full_name(h)]
         env = dict(ENV, CARGO_TARGET_DIR=os.path.join(d, 'target'))
         t0 = time.time()
-        try:
-            p = subprocess.run(cmd, cwd=repo, env=env, stdout=subprocess.PIPE, stderr=subprocess.STDOUT, text=True, timeout=timeout)
-            out = p.stdout
-            rc = p.returncode
-        except subprocess.TimeoutExpired as e:
-            out = (e.stdout or '') if isinstance(e.stdout, str) else (e.stdout or b'').decode(errors='replace')
-            rc = 124
+        killed = []
+        p = subprocess.Popen(cmd, cwd=repo, env=env, stdout=subprocess.PIPE, stderr=subprocess.STDOUT, text=True)
+        import threading
+        buf = []
+        th = threading.Thread(target=lambda: buf.append(p.stdout.read()))
+        th.start()
+        # watchdog: a CBMC process of this run that exceeds the per-harness memory / time budget is killed
+        # (the harness is then reported as RESOURCE = undecided, never as a violation)
+        while p.poll() is None:
+            time.sleep(3)
+            for pid in _cbmc_children(d):
+                rss, age = _proc_stats(pid)
+                if rss > mem_limit_gb * (1 << 30) or age > per_harness_s:
+                    try:
+                        os.kill(pid, 9)
+                        killed.append((pid, rss >> 20, int(age)))
+                    except OSError:
+                        pass
+            if time.time() - t0 > timeout:
+                p.kill()
+        th.join()
+        out = (buf[0] if buf else '') + ''.join('\n[watchdog] killed cbmc pid %d (rss %d MiB, age %d s): CBMC failed (resource budget)' % k for k in killed)
+        rc = p.returncode
         dt = time.time() - t0
         return {'rc': rc, 'out': out, 'wall_s': dt, 'cmd': ' '.join(cmd)}
     finally:
